@@ -88,9 +88,10 @@ impl MemResizable for HeapMem {
                         // mul carefully, to prevent overflow.
                         let new_mem_size = self.element_layout.size()
                             .checked_mul(new_size).unwrap();
-                        let new_mem_layout = Layout::from_size_align_unchecked(
+                        // checked: size must not overflow isize (allocator requirement).
+                        let new_mem_layout = Layout::from_size_align(
                             new_mem_size, self.element_layout.align()
-                        );
+                        ).unwrap();
 
                         if self.size == 0 {
                             // allocate
